@@ -13,15 +13,21 @@ MANIFEST = dict(
          "(1) header framing: the text handed to the C++ header writer is evaluated symbolically (join / % / format / f-string, temporaries and private helpers folded) and the trailer after the pretty-printed dict read off it; the "
          "C++ reader's sentinel literal, comparison width and post-sentinel skip must reproduce exactly that trailer (data offset = header "
          "length) and the sentinel must be anchored by line boundaries on both sides so that user text containing END cannot match; the "
-         "number of bytes counted as header after the sentinel is a constant (no loop over the bytes that follow, which are row data); the C++ "
+         "number of bytes counted as header after the sentinel is a constant (no loop over the bytes that follow, which are row data); no exit of the C++ reader (throw, break, loop condition, "
+         "the return of the text) is control dependent on the scanned length having reached a constant: headers have no maximum length; the C++ "
          "writer never uses the text as a printf format and hands it to one output call that copies it unchanged (data flow of the text "
          "through locals, buffers and helpers); the Python parser drops exactly the trailer lines; (2) SIZE line: prefix, width >= 20 and conversion agree between writer, in-place "
          "updater and parser; (3) payload pass-through: on the binary path the object handed to Records::Write is a view of the caller's "
          "array (no conversion), native-order conversion and dtype byte-order stripping are control dependent on the text condition, the "
          "C++ writer issues one fwrite of rowsize x nrows with a short-write throw, readers allocate zeros(n, dtype=<file dtype>) and seek "
          "to the data offset first; (4) header content: user header deep-copied, only underscore-prefixed reserved keys removed, _DTYPE is "
-         "data.dtype.descr unmodified for binary, _SIZE filled from the SIZE line, header returned by copy; (5) every front end (sfile, "
-         "SFile, Recfile, recfile.write/read, io.write/io.read for rec) reaches the same writer/reader with (file, data) in the right roles.",
+         "data.dtype.descr unmodified for binary, _SIZE filled from the SIZE line, header returned by copy; helpers of the package applied to the "
+         "header dict on its way to pprint.pformat / back from eval are evaluated abstractly once per type of the quantifier's value domain (None, bool, int, float, str, bytes, "
+         "list, tuple, dict; isinstance/type tests decided from the type) and must return an equal value for each (a tuple rebuilt as a list is a violation); (5) every front end (sfile, "
+         "SFile, Recfile, recfile.write/read, io.write/io.read for rec) reaches the same writer/reader with (file, data) in the right roles; "
+         "(6) handle typestate: the attributes by which SFile.write tells a first write from an append (recorded by the write path and compared with None there) are "
+         "assigned afresh on every path through the public open() that creates the record reader/writer (forward data flow over joint attribute states, "
+         "close() and other helpers summarised), so a handle re-opened on another file starts with a header.",
     note="Not decided: byte equality for all dtypes/values, numpy descr->dtype reconstruction, pprint.pformat/eval round trip of arbitrary "
          "literals, libc I/O. Trusted: pprint escapes string content (no raw line consisting of END), SWIG naming convention.",
     technique="static analysis: abstract evaluation of writer constants vs reader constants (framing agreement), CFG dominance/control-dependence, alias analysis for pass-through",
@@ -32,7 +38,7 @@ W = "esutil/recfile/records.cpp"
 
 # rules that keep their verdict however the code is laid out (decided by term equality, effect analysis or dominance over
 # resolved calls); every other rule of this check is a template rule (vcheck.core.Check.obt)
-SEMANTIC = ('R01.1', 'R01.4', 'R01.6', 'R01.3::Records::Write', 'R01.3::Records::set_file_type', 'R01.3::Recfile.write[binary]', 'R01.3::Recfile.open', 'R01.5::io.read::rec-dispatch', 'R01.5::io.write::rec-dispatch')
+SEMANTIC = ('R01.1', 'R01.4', 'R01.6', 'R01.7', 'R01.3::Records::Write', 'R01.3::Records::set_file_type', 'R01.3::Recfile.write[binary]', 'R01.3::Recfile.open', 'R01.5::io.read::rec-dispatch', 'R01.5::io.write::rec-dispatch')
 
 
 # ---------------------------------------------------------------------------
@@ -980,6 +986,7 @@ def run(chk):
     header_content(chk, repo, fr)
     front_ends(chk, repo)
     row_count(chk, repo)
+    handle_state(chk, repo)
 
 
 # ---------------------------------------------------------------------------
@@ -1211,6 +1218,181 @@ def _loop_depends_on_bytes(fn, l):
     return None
 
 
+_C_CONST_LEAVES = ("IntegerLiteral", "CharacterLiteral", "UnaryExprOrTypeTraitExpr", "CXXBoolLiteralExpr")
+
+
+def _c_is_constant(e):
+    """an expression built from literals, sizeof, enumerators and const-qualified variables only (no call, no member, no variable
+    that can change)"""
+    for x in cfront.walk(e):
+        k = x.get("kind")
+        if k in ("CallExpr", "CXXMemberCallExpr", "CXXOperatorCallExpr", "MemberExpr", "CXXThisExpr", "ArraySubscriptExpr", "CXXConstructExpr"):
+            return False
+        if k == "DeclRefExpr":
+            rd_ = x.get("referencedDecl") or {}
+            if rd_.get("kind") == "EnumConstantDecl":
+                continue
+            q = (rd_.get("type") or {}).get("qualType", "")
+            if rd_.get("kind") == "VarDecl" and q.startswith("const ") and "*" not in q:
+                continue
+            return False
+    return any(x.get("kind") in _C_CONST_LEAVES or x.get("kind") == "DeclRefExpr" for x in cfront.walk(e))
+
+
+def scan_length_bounds(rd):
+    """Exits of the C++ header reader that are taken because the amount of header text scanned so far has reached a constant.
+    The quantities that measure it: variables incremented inside the byte scanning loop, and std::strings the bytes are appended
+    to (their size()).  An exit (throw, return, break / goto out of the loop, the loop's own condition becoming false) that is
+    control dependent on `<such a quantity> > / >= / == <constant>` gives up on every header longer than the constant.
+    Returns (verdict, text, line): False with the offending exit; None when such a comparison is only one part of a compound
+    condition (not decided); True otherwise."""
+    body = cfront.body_of(rd)
+    inits = c_inits(rd)
+    loops = [x for x in cfront.walk(body) if x.get("kind") in ("WhileStmt", "DoStmt", "ForStmt")]
+    scan = [l for l in loops if any(cfront.callee_name(c) in _BYTE_READS for c in cfront.calls_in(l))]
+    if len(scan) > 1:
+        withcmp = [l for l in scan if _has_sentinel_cmp(l)]
+        scan = [l for l in withcmp if not any(m is not l and id(m) in {id(x) for x in cfront.walk(l)} for m in withcmp)] or scan
+    if len(scan) != 1:
+        return None, "the byte scanning loop was not found", None
+    loop = scan[0]
+    inloop = {id(x) for x in cfront.walk(loop)}
+    grow = set()
+    for x in cfront.walk(loop):
+        k = x.get("kind")
+        if (k == "UnaryOperator" and x.get("opcode") == "++") or (k == "CompoundAssignOperator" and x.get("opcode") == "+="):
+            l = cfront.strip(x["inner"][0])
+            if l.get("kind") == "DeclRefExpr":
+                grow.add(cfront.render(l))
+        elif k == "CXXMemberCallExpr" and cfront.callee_name(x) in ("push_back", "append"):
+            obj = cfront.strip(cfront.strip(x["inner"][0]).get("inner", [{}])[0])
+            if obj.get("kind") == "DeclRefExpr":
+                grow.add(cfront.render(obj))
+        elif k == "CXXOperatorCallExpr" and cfront.callee_name(x) == "operator+=":
+            a = cfront.call_args(x)
+            if a and cfront.strip(a[0]).get("kind") == "DeclRefExpr":
+                grow.add(cfront.render(a[0]))
+    grow.discard(None)
+    # a variable that is set afresh inside the scanning loop (declared there, or assigned: the index of a small inner loop) does
+    # not measure the text scanned; the initialisation clause of the scanning loop itself runs once
+    own_init = {id(x) for x in cfront.walk(loop["inner"][0])} if loop.get("kind") == "ForStmt" and loop.get("inner") and isinstance(loop["inner"][0], dict) else set()
+    for x in cfront.walk(loop):
+        if id(x) in own_init:
+            continue
+        if x.get("kind") == "VarDecl" and x.get("name"):
+            grow.discard(x["name"])
+        elif x.get("kind") == "BinaryOperator" and x.get("opcode") == "=":
+            l = cfront.strip(x["inner"][0])
+            if l.get("kind") == "DeclRefExpr":
+                grow.discard(cfront.render(l))
+
+    def measures(e):
+        """is e one of the growing quantities: the counter itself, or size()/length() of the accumulated text"""
+        e = cfront.strip(e)
+        if e.get("kind") == "DeclRefExpr":
+            return cfront.render(e) in grow
+        if e.get("kind") == "CXXMemberCallExpr" and cfront.callee_name(e) in ("size", "length") and not cfront.call_args(e):
+            return cfront.render(cfront.strip(cfront.strip(e["inner"][0]).get("inner", [{}])[0])) in grow
+        if e.get("kind") == "BinaryOperator" and e.get("opcode") in ("+", "-"):
+            l, r = e["inner"]
+            return (measures(l) and _c_is_constant(r)) or (e.get("opcode") == "+" and measures(r) and _c_is_constant(l))
+        return False
+
+    def bound(cond, truth, want):
+        """('direct', text): the condition, taken with this truth value, is `quantity OP constant` with OP one of `want`;
+        ('part', text): a conjunction with such a comparison inside; None otherwise"""
+        n = cfront.strip(cond)
+        while n.get("kind") == "UnaryOperator" and n.get("opcode") == "!":
+            n = cfront.strip(n["inner"][0])
+            truth = not truth
+        if n.get("kind") != "BinaryOperator":
+            return None
+        op = n.get("opcode")
+        if op in ("&&", "||"):
+            subs = [bound(x, truth, want) for x in n["inner"]]
+            if ((op == "||" and truth) or (op == "&&" and not truth)) and all(s_ and s_[0] == "direct" for s_ in subs):
+                return subs[0]          # every alternative is a length limit
+            hit = [s_ for s_ in subs if s_]
+            return ("part", hit[0][1]) if hit else None
+        if op not in _CNEG:
+            return None
+        l, r = n["inner"]
+        if not truth:
+            op = _CNEG[op]
+        raw_l, raw_r = l, r
+        l, r = c_subst(l, inits), c_subst(r, inits)
+        if measures(raw_r) and _c_is_constant(l) and not measures(raw_l):
+            l, r, raw_l, raw_r, op = r, l, raw_r, raw_l, _CSWAP[op]
+        if measures(raw_l) and _c_is_constant(r) and op in want:
+            return ("direct", "%s %s %s" % (cfront.render(raw_l), op, cfront.render(r)))
+        return None
+    bytevars = set()
+    for x in cfront.walk(body):
+        if x.get("kind") == "VarDecl" and x.get("name"):
+            init = [y for y in x.get("inner", []) or [] if isinstance(y, dict) and y.get("kind")]
+            if init and any(cfront.callee_name(c) in _BYTE_READS for c in cfront.calls_in(init[-1])):
+                bytevars.add(x["name"])
+        elif x.get("kind") == "BinaryOperator" and x.get("opcode") == "=":
+            lhs = cfront.strip(x["inner"][0])
+            if lhs.get("kind") == "DeclRefExpr" and any(cfront.callee_name(c) in _BYTE_READS for c in cfront.calls_in(x["inner"][1])):
+                bytevars.add(cfront.render(lhs))
+
+    def about_the_bytes(c):
+        """the condition looks at what was read from the file (the byte, end of file, an I/O error) or is the sentinel comparison"""
+        return _has_sentinel_cmp(c) or any(cfront.callee_name(y) in _BYTE_READS + ("feof", "ferror") for y in cfront.calls_in(c)) or bool(_c_refs(c) & bytevars)
+    EXCEEDED, BELOW = (">", ">=", "=="), ("<", "<=")
+    ccfg = cfront.CCFG(rd)
+    view = ccfg.view()
+    found_part = None
+    for n in ccfg.nodes:
+        if n.id not in view.reach:
+            continue
+        ctl = [(b.c, lab == "T") for b, lab in view.controlling_branches(n) if b.c is not None and lab in ("T", "F")]
+        conds, want, what, how = [], EXCEEDED, None, "is taken when"
+        if n.kind == "return":
+            # the text is returned: that must not require the scanned length to stay under a constant
+            conds, want, what, how = ctl, BELOW, "the return of the header text", "is reached only when"
+        elif n.kind == "raise" or (n.kind == "stmt" and n.label in ("break", "goto") and isinstance(n.c, dict) and id(n.c) in inloop):
+            # giving up / leaving the scan; an exit that also depends on what was read (end of file, an I/O error, the sentinel
+            # found) is not an exit because of the length
+            if not any(about_the_bytes(c) and bound(c, t, EXCEEDED) is None and
+                       (_has_sentinel_cmp(c) or _eof_test(c, t, bytevars)) for c, t in ctl):
+                conds, what = ctl, ("the throw" if n.kind == "raise" else "the %s" % n.label)
+        elif n.kind == "loop" and n.c is not None and id(n.c) in inloop:
+            # leaving the scanning loop (or a loop inside it) because its condition became false
+            conds, what = [(n.c, False)], "the end of the loop `%s`" % cfront.render(n.c)[:60]
+        for c, truth in conds:
+            b = bound(c, truth, want)
+            if b is None:
+                continue
+            txt = "%s at line %s %s `%s`: the reader gives up after a fixed amount of header text, a file whose header is longer can be written but not read back" % (what, n.lineno or "?", how, b[1])
+            if b[0] == "direct":
+                return False, txt, n.lineno
+            found_part = found_part or (txt, n.lineno)
+    if found_part:
+        return None, found_part[0] + " (the comparison is one part of a compound condition: not decided)", found_part[1]
+    return True, "", rd.get("line")
+
+
+def _eof_test(cond, truth, bytevars):
+    """the condition, taken with this truth value, says that the read hit the end of the file or failed: `c == EOF`, `EOF == fgetc(f)`,
+    feof(f) / ferror(f), a short fread"""
+    n = cfront.strip(cond)
+    while n.get("kind") == "UnaryOperator" and n.get("opcode") == "!":
+        n = cfront.strip(n["inner"][0])
+        truth = not truth
+    if n.get("kind") in ("CallExpr",) and cfront.callee_name(n) in ("feof", "ferror"):
+        return truth
+    if n.get("kind") == "BinaryOperator" and n.get("opcode") in ("==", "!=", "<"):
+        eq = (n["opcode"] != "!=") == truth
+        sides = [cfront.strip(x) for x in n["inner"]]
+        rend = [cfront.render(x) for x in sides]
+        reads = [bool(_c_refs(x) & bytevars) or any(cfront.callee_name(y) in _BYTE_READS for y in cfront.calls_in(x)) for x in sides]
+        if any(reads) and eq and (n["opcode"] == "<" or any(r_ in ("-1", "(-1)", "EOF") for r_ in rend)):
+            return True
+    return False
+
+
 def reader_model(rd):
     """What the C++ header reader does with the byte stream, in either of the two recognised idioms:
        (a) a fixed window shifted by one byte per fgetc and compared with strncmp/memcmp against a literal, a byte counter,
@@ -1440,6 +1622,13 @@ def framing(chk, repo, cfun):
         chk.ob(R, "reader::header-length-independent-of-row-bytes", vs is None, "%s:%s" % (W, vs[0]) if vs and vs[0] else W,
                "the number of bytes counted as header after the sentinel is a constant, it does not depend on the bytes that follow the trailer (row data: any byte "
                "value, including newline and blank, can start the first row)%s" % ("" if vs is None else ": " + vs[1] + ", so a first row beginning with such bytes is swallowed into the header and the data offset is wrong"))
+    # a header is as long as the user's dict and the dtype description make it: no exit of the reader may be taken because a
+    # fixed number of bytes has been scanned
+    okb, btxt, bline = scan_length_bounds(rd)
+    chk.ob(R, "reader::accepts-header-of-any-length", okb, "%s:%s" % (W, bline) if bline else W,
+           "the header text has no maximum length (the user's keys and values and the dtype description of any number of fields make it as long as they "
+           "are), so no exit of the C++ header reader -- throw, return, break, or the scanning loop's own condition -- may be taken because the number "
+           "of bytes scanned has reached a constant%s" % ("" if not btxt else ": " + btxt))
     chk.ob(R, "reader::constants-found", None if (S is None or K is None) else True, W, "sentinel %r compared over %d bytes, then %s more bytes belong to the header (%s)" % (S, width, K, m["idiom"]))
     if S is None or K is None:
         return fr
@@ -1873,6 +2062,345 @@ def payload(chk, repo, cfun):
 
 
 # ---------------------------------------------------------------------------
+# Value transformers.  The header read back must hold every user key with an EQUAL value, so whatever sits between the user's
+# dict and pprint.pformat (and between eval and the caller) has to map every value of the property's quantifier -- None, bool,
+# int, float, str, bytes and lists / tuples / dicts of them, nested -- to an equal value.  A helper of the package applied to
+# the dict is evaluated abstractly, once per type of that finite domain: isinstance / type() / `is None` / hasattr tests on its
+# parameter are decided from the type (three-valued), branches followed accordingly, and each value returned classified:
+#   same     the parameter itself, a (deep) copy, a rebuild as the same container type whose elements are passed unchanged or
+#            through analysed helpers (which then have to be `same` for every type: containers nest);
+#   diff     a container rebuilt as another container type (tuple -> list ...): never equal to what was supplied;
+#   unknown  anything else.
+# No code is run and no sample values are used: the domain is the set of types, which covers every input.
+# ---------------------------------------------------------------------------
+
+PYTYPES = ("NoneType", "bool", "int", "float", "str", "bytes", "list", "tuple", "dict")
+_PYCLASS = {"NoneType": type(None), "bool": bool, "int": int, "float": float, "str": str, "bytes": bytes, "list": list, "tuple": tuple, "dict": dict}
+_MRO = {t: {c.__name__ for c in _PYCLASS[t].__mro__} for t in PYTYPES}
+_BUILTIN_CLASSES = {"bool", "int", "float", "str", "bytes", "list", "tuple", "dict", "object", "set", "frozenset", "complex", "bytearray"}
+_CONTAINERS = ("list", "tuple", "dict", "set", "frozenset")
+
+
+class Transform:
+    def __init__(self, repo):
+        self.repo = repo
+        self.memo = {}
+        self.busy = set()
+
+    # -- which classes does a type expression name: (set of builtin class names, anything not understood?) ---------------
+    def classes(self, e, mod, depth=0):
+        if isinstance(e, (ast.Tuple, ast.List)):
+            names, unk = set(), False
+            for x in e.elts:
+                n2, u2 = self.classes(x, mod, depth)
+                names |= n2
+                unk = unk or u2
+            return names, unk
+        if isinstance(e, ast.Call) and isinstance(e.func, ast.Name) and e.func.id == "type" and len(e.args) == 1 \
+                and isinstance(e.args[0], ast.Constant) and e.args[0].value is None:
+            return {"NoneType"}, False
+        d = dotted_name(e)
+        if d is None:
+            return set(), True
+        if "." not in d and d in mod.consts and depth < 4 and d not in mod.imports:
+            return self.classes(mod.consts[d], mod, depth + 1)
+        full = self.repo.resolve_name(mod, d)
+        if full in _BUILTIN_CLASSES and "." not in d and d not in mod.funcs and d not in mod.classes:
+            return {full}, False
+        if full.split(".")[0] == "numpy":
+            return set(), False         # no value of the domain is an instance of a numpy class
+        return set(), True
+
+    def test(self, t, T, isparam, mod):
+        """truth of a test for a parameter of type T: True / False / None (not decided)"""
+        if isinstance(t, ast.UnaryOp) and isinstance(t.op, ast.Not):
+            v = self.test(t.operand, T, isparam, mod)
+            return None if v is None else not v
+        if isinstance(t, ast.BoolOp):
+            vs = [self.test(v, T, isparam, mod) for v in t.values]
+            if isinstance(t.op, ast.And):
+                return False if False in vs else (None if None in vs else True)
+            return True if True in vs else (None if None in vs else False)
+        if isinstance(t, ast.Call) and isinstance(t.func, ast.Name) and not t.keywords:
+            f = t.func.id
+            if f == "isinstance" and len(t.args) == 2 and isparam(t.args[0]):
+                names, unk = self.classes(t.args[1], mod)
+                if names & _MRO[T]:
+                    return True
+                return None if unk else False
+            if f == "hasattr" and len(t.args) == 2 and isparam(t.args[0]) and isinstance(t.args[1], ast.Constant) and isinstance(t.args[1].value, str):
+                return hasattr(_PYCLASS[T], t.args[1].value)        # instances of these classes have no attributes of their own
+            if f == "callable" and len(t.args) == 1 and isparam(t.args[0]):
+                return False
+        if isinstance(t, ast.Compare) and len(t.ops) == 1:
+            op, l, r = t.ops[0], t.left, t.comparators[0]
+            if isinstance(op, (ast.Is, ast.IsNot, ast.Eq, ast.NotEq)):
+                if isinstance(l, ast.Constant) and l.value is None:
+                    l, r = r, l
+                neg = isinstance(op, (ast.IsNot, ast.NotEq))
+                if isparam(l) and isinstance(r, ast.Constant) and r.value is None:
+                    return (T == "NoneType") != neg
+            typeof = lambda x: isinstance(x, ast.Call) and isinstance(x.func, ast.Name) and x.func.id == "type" and len(x.args) == 1 and isparam(x.args[0]) \
+                or (isinstance(x, ast.Attribute) and x.attr == "__class__" and isparam(x.value))
+            if isinstance(op, (ast.Is, ast.IsNot, ast.Eq, ast.NotEq, ast.In, ast.NotIn)):
+                if not typeof(l) and typeof(r) and not isinstance(op, (ast.In, ast.NotIn)):
+                    l, r = r, l
+                if typeof(l):
+                    names, unk = self.classes(r, mod)
+                    neg = isinstance(op, (ast.IsNot, ast.NotEq, ast.NotIn))
+                    if T in names:
+                        return not neg
+                    return None if unk else neg
+        return None
+
+    # -- abstract execution of a helper for one type ------------------------------------------------------------------
+    def result(self, fi, T):
+        """("same", frozenset of qualnames the elements go through) | ("diff", text) | ("unknown", text)"""
+        key = (fi.qualname, T)
+        if key in self.memo:
+            return self.memo[key]
+        if key in self.busy:
+            return ("same", frozenset())            # coinductive: the values are finite, the recursion is on strictly smaller ones
+        self.busy.add(key)
+        try:
+            ps = [p for p in fi.params if not p.startswith("*")]
+            if fi.cls:
+                ps = ps[1:]
+            if not ps or isinstance(fi.node, ast.AsyncFunctionDef) or rules.is_generator(fi.node):
+                r = ("unknown", "%s is not a function of one value" % fi.name)
+            else:
+                outs = [o if o[0] != "fall" else ("unknown", "%s can end without a return" % fi.name) for o in self._exec(fi, fi.node.body, {}, ps[0], T)]
+                r = self._merge(outs) if outs else ("unknown", "no return found in %s" % fi.name)
+        finally:
+            self.busy.discard(key)
+        self.memo[key] = r
+        return r
+
+    @staticmethod
+    def _merge(outs):
+        for o in outs:
+            if o[0] == "diff":
+                return o
+        for o in outs:
+            if o[0] == "unknown":
+                return o
+        deps = frozenset()
+        for o in outs:
+            deps |= o[1]
+        return ("same", deps)
+
+    def _exec(self, fi, stmts, env, p, T, depth=0):
+        """outcomes of running the statements: list of results; the pseudo result ("fall", env) when control runs off their end"""
+        outs = []
+        env = dict(env)
+        for i, s in enumerate(stmts):
+            if isinstance(s, ast.Pass) or (isinstance(s, ast.Expr) and isinstance(s.value, ast.Constant)) or isinstance(s, (ast.Import, ast.ImportFrom)):
+                continue
+            if isinstance(s, ast.Return):
+                outs.extend(self._value(fi, s.value, env, p, T) if s.value is not None else [("unknown", "`return` without a value in %s" % fi.name)])
+                return outs
+            if isinstance(s, ast.Assign) and len(s.targets) == 1 and isinstance(s.targets[0], ast.Name):
+                env[s.targets[0].id] = (s.value, dict(env))
+                continue
+            if isinstance(s, ast.If) and depth < 8:
+                isparam = lambda e, env=env: self._isparam(e, env, p)
+                v = self.test(s.test, T, isparam, fi.module)
+                arms = ([s.body] if v is not False else []) + ([s.orelse] if v is not True else [])
+                falls = []
+                for arm in arms:
+                    for o in self._exec(fi, arm, env, p, T, depth + 1):
+                        (falls if o[0] == "fall" else outs).append(o)
+                if not falls:
+                    return outs
+                if len(falls) > 1 and any(f[1] != falls[0][1] for f in falls):
+                    # the arms left different bindings behind: continue once per arm
+                    rest = stmts[i + 1:]
+                    for f in falls:
+                        outs.extend(self._exec(fi, rest, f[1], p, T, depth + 1))
+                    return outs
+                env = dict(falls[0][1])
+                continue
+            outs.append(("unknown", "statement `%s` of %s is not followed" % (norm(s)[:60], fi.name)))
+            return outs
+        outs.append(("fall", env))
+        return outs
+
+    def _isparam(self, e, env, p):
+        seen = 0
+        while isinstance(e, ast.Name) and e.id in env and seen < 8:
+            e, env = env[e.id]
+            seen += 1
+        return isinstance(e, ast.Name) and e.id == p and p not in env
+
+    def _helper(self, fi, f):
+        """the function of the package that the expression f names (a module-level function, or a method called on self)"""
+        if isinstance(f, ast.Name) and f.id in fi.module.funcs and fi.module.funcs[f.id].cls is None:
+            return fi.module.funcs[f.id]
+        if fi.cls and isinstance(f, ast.Attribute) and isinstance(f.value, ast.Name) and f.value.id == _selfname(fi):
+            return self.repo.funcs.get("%s.%s.%s" % (fi.module.name, fi.cls, f.attr))
+        d = dotted_name(f)
+        if d is not None:
+            return self.repo.funcs.get(self.repo.resolve_name(fi.module, d))
+        return None
+
+    def _element(self, fi, e, var, env):
+        """how an element expression treats the loop variable: frozenset() unchanged, frozenset({g}) through helper g, None otherwise"""
+        if isinstance(e, ast.Name) and e.id == var:
+            return frozenset()
+        if isinstance(e, ast.Call) and len(e.args) == 1 and not e.keywords and isinstance(e.args[0], ast.Name) and e.args[0].id == var:
+            d = dotted_name(e.func)
+            if d is not None and self.repo.resolve_name(fi.module, d) in ("copy.deepcopy", "copy.copy"):
+                return frozenset()
+            g = self._helper(fi, e.func)
+            if g is not None:
+                return frozenset({g.qualname})
+        return None
+
+    def _rebuild(self, fi, e, env, p, T):
+        """e builds a new container from the elements of the parameter: (kind built, helpers the elements go through) or None"""
+        isparam = lambda x: self._isparam(x, env, p)
+
+        def over(comp_elt, gens, want_pair):
+            if len(gens) != 1 or gens[0].ifs or gens[0].is_async:
+                return None
+            g = gens[0]
+            if want_pair:
+                it = g.iter
+                if not (isinstance(it, ast.Call) and isinstance(it.func, ast.Attribute) and it.func.attr == "items" and not it.args and isparam(it.func.value)):
+                    return None
+                if not (isinstance(g.target, ast.Tuple) and len(g.target.elts) == 2 and all(isinstance(x, ast.Name) for x in g.target.elts)):
+                    return None
+                k, v = comp_elt
+                dk, dv = self._element(fi, k, g.target.elts[0].id, env), self._element(fi, v, g.target.elts[1].id, env)
+                return None if dk is None or dv is None else dk | dv
+            if not isparam(g.iter) or not isinstance(g.target, ast.Name):
+                return None
+            return self._element(fi, comp_elt, g.target.id, env)
+        if isinstance(e, ast.ListComp):
+            d = over(e.elt, e.generators, False)
+            return None if d is None else ("list", d)
+        if isinstance(e, ast.SetComp):
+            d = over(e.elt, e.generators, False)
+            return None if d is None else ("set", d)
+        if isinstance(e, ast.DictComp):
+            d = over((e.key, e.value), e.generators, True)
+            return None if d is None else ("dict", d)
+        if isinstance(e, ast.Call) and len(e.args) == 1 and not e.keywords:
+            f, a = e.func, e.args[0]
+            kind = None
+            if isinstance(f, ast.Name) and f.id in _CONTAINERS and f.id not in fi.module.funcs and f.id not in env:
+                kind = f.id
+            elif (isinstance(f, ast.Call) and isinstance(f.func, ast.Name) and f.func.id == "type" and len(f.args) == 1 and isparam(f.args[0])) \
+                    or (isinstance(f, ast.Attribute) and f.attr == "__class__" and isparam(f.value)):
+                kind = T
+            if kind is None:
+                return None
+            d = None
+            if isparam(a):
+                d = frozenset()                                     # list(value), tuple(value), dict(value)
+            elif isinstance(a, (ast.GeneratorExp, ast.ListComp)):
+                if kind == "dict":
+                    if isinstance(a.elt, ast.Tuple) and len(a.elt.elts) == 2:
+                        d = over((a.elt.elts[0], a.elt.elts[1]), a.generators, True)
+                else:
+                    d = over(a.elt, a.generators, False)
+            elif isinstance(a, ast.Call) and isinstance(a.func, ast.Name) and a.func.id == "map" and len(a.args) == 2 and isparam(a.args[1]) and kind != "dict":
+                g = self._helper(fi, a.args[0])
+                d = frozenset({g.qualname}) if g is not None else None
+            return None if d is None else (kind, d)
+        return None
+
+    def _value(self, fi, e, env, p, T, depth=0):
+        """results for a returned expression"""
+        seen = 0
+        while isinstance(e, ast.Name) and e.id in env and seen < 8:
+            e, env = env[e.id]
+            seen += 1
+        if self._isparam(e, env, p):
+            return [("same", frozenset())]
+        if isinstance(e, ast.IfExp) and depth < 6:
+            v = self.test(e.test, T, lambda x: self._isparam(x, env, p), fi.module)
+            out = []
+            if v is not False:
+                out.extend(self._value(fi, e.body, env, p, T, depth + 1))
+            if v is not True:
+                out.extend(self._value(fi, e.orelse, env, p, T, depth + 1))
+            return out
+        if isinstance(e, ast.Call) and len(e.args) == 1 and not e.keywords and self._isparam(e.args[0], env, p):
+            d = dotted_name(e.func)
+            full = self.repo.resolve_name(fi.module, d) if d is not None else None
+            if full in ("copy.deepcopy", "copy.copy"):
+                return [("same", frozenset())]
+            g = self._helper(fi, e.func)
+            if g is not None:
+                return [self.result(g, T)]
+            if isinstance(e.func, ast.Name) and e.func.id == T and T in _BUILTIN_CLASSES and e.func.id not in fi.module.funcs:
+                return [("same", frozenset())]                      # int(an int), str(a str), list(a list) ...
+        rb = self._rebuild(fi, e, env, p, T)
+        if rb is not None:
+            kind, deps = rb
+            if kind == T:
+                return [("same", deps)]
+            if T in ("list", "tuple", "dict") and kind in _CONTAINERS:
+                return [("diff", "for a %s value %s returns `%s`, a %s, which never compares equal to the %s supplied" % (T, fi.name, norm(e)[:80], kind, T))]
+            if T in ("str", "bytes") and kind in _CONTAINERS:
+                return [("diff", "for a %s value %s returns `%s`, a %s of its characters" % (T, fi.name, norm(e)[:80], kind))]
+        return [("unknown", "for a %s value %s returns `%s`" % (T, fi.name, norm(e)[:80]))]
+
+    # -- a chain of helpers applied to the header dict ---------------------------------------------------------------
+    def verdict(self, fis, tops=("dict",)):
+        """helpers applied (in any order) to a value of one of the types `tops` (the header dict; or any type of the domain when
+        they are applied to the dict's values) whose elements range over the whole domain: (True | False | None, text)"""
+        todo = [(f, T) for f in fis for T in tops]
+        seen, unknown = set(), None
+        while todo:
+            f, T = todo.pop()
+            if (f.qualname, T) in seen:
+                continue
+            seen.add((f.qualname, T))
+            r = self.result(f, T)
+            if r[0] == "diff":
+                return False, r[1]
+            if r[0] == "unknown":
+                unknown = unknown or r[1]
+                continue
+            for q in r[1]:
+                g = self.repo.funcs.get(q)
+                if g is None:
+                    unknown = unknown or "helper %s not found" % q
+                    continue
+                todo.extend((g, T2) for T2 in PYTYPES)
+        if unknown:
+            return None, unknown
+        return True, ""
+
+
+def peel_helpers(repo, t):
+    """t = h1(h2(... core ...)) with each h a one-argument call of copy.deepcopy or of a function / method of the package:
+    (core, [FuncInfo of the package helpers], was copy.deepcopy among them)"""
+    fis, deep = [], False
+    for _ in range(8):
+        if t[0] == "call" and len(t[2]) == 1 and not t[3]:
+            if t[1] == "copy.deepcopy":
+                deep = True
+                t = t[2][0]
+                continue
+            f = repo.funcs.get(t[1])
+            if f is not None:
+                fis.append(f)
+                t = t[2][0]
+                continue
+        if t[0] == "mcall" and len(t[2]) == 1 and t[2][0][0] not in ("*", "**"):
+            f = repo.funcs.get(t[1])
+            if f is not None:
+                fis.append(f)
+                t = t[2][0][1]
+                continue
+        break
+    return t, fis, deep
+
+
+# ---------------------------------------------------------------------------
 def _ancestors(fn):
     """{id(stmt): [(compound statement, 'body' | 'orelse'), ...]} outermost first (nested defs skipped)"""
     out = {}
@@ -2047,8 +2575,11 @@ def filtered_copies(ev, mh, H, header):
         else:
             continue
         vt = ev.ev(a.value, n)
+        core, helpers, hasdeep = peel_helpers(ev.repo, vt)
         if vt == ("call", "copy.deepcopy", (val,), ()):
             kind = "deep"
+        elif helpers and core == val:
+            kind = ("through", helpers, hasdeep)        # the value goes through helpers of the package: judged by the caller
         elif vt in (val, ("call", "copy.copy", (val,), ())):
             kind = "alias"
         else:
@@ -2115,6 +2646,17 @@ def header_content(chk, repo, fr):
     shallow = (header, ("call", "dict", (header,), ()), ("meth", header, "copy", (), ()), ("call", "copy.copy", (header,), ()))
     given = lambda L: (isnone, False) in L or (header, True) in L          # a header was passed (`is not None`, or truthy: an empty dict needs no copy)
     absent = lambda L: (isnone, True) in L or (header, False) in L
+    # helpers of the package applied to the copy (or to each value copied): every value of the quantifier must come out equal
+    tf = Transform(repo)
+    changed = []
+    for i, (t, L, n) in enumerate(origins):
+        core, helpers, hasdeep = peel_helpers(repo, t)
+        if helpers and core == header:
+            v, why = tf.verdict(helpers)
+            if v is False:
+                changed.append("the stored header is `%s`: %s" % (show(t), why))
+            elif v is True and hasdeep:
+                origins[i] = (deep, L, n)
     deeps = [n for t, L, n in origins if t == deep and given(L)]
     # an unconditional `head = {}` that the copy, made later when a header was given, replaces is the same thing as the else arm
     default = lambda L, n: not given(L) and not absent(L) and bool(deeps) and not any(ev.view.reaches(d, n) for d in deeps)
@@ -2122,6 +2664,13 @@ def header_content(chk, repo, fr):
     # the other way to the same dict: start empty and copy the user's entries one by one (each value deep-copied; keys are strings)
     fills = filtered_copies(ev, mh, H, header)
     plain = lambda L: not given(L) and not absent(L)
+    for f in fills:
+        if isinstance(f["value"], tuple):
+            _, helpers, hasdeep = f["value"]
+            v, why = tf.verdict(helpers, tops=PYTYPES)
+            if v is False:
+                changed.append("`%s`: %s" % (f["text"], why))
+            f["value"] = "deep" if (v is True and hasdeep) else None
     if not origins:
         ok = None
     elif all(good) and deeps and any(t in empty for t, L, n in origins):
@@ -2137,8 +2686,11 @@ def header_content(chk, repo, fr):
             ok = None
     else:
         ok = None
-    chk.ob(R, "_make_header::user-header-deep-copied", ok, mh.where(), "the stored header starts as a deep copy of the user's dict (or empty when none was given): %s%s"
-           % ([(show(t), [(show(a), b) for a, b in L]) for t, L, n in origins], "" if not fills else "; filled entry by entry: %s" % [(f["text"], f["value"]) for f in fills]))
+    if changed:
+        ok = False          # a value of the user's header is replaced by one that does not compare equal to it
+    chk.ob(R, "_make_header::user-header-deep-copied", ok, mh.where(), "the stored header starts as a deep copy of the user's dict (or empty when none was given), every value equal to the one supplied: %s%s%s"
+           % ([(show(t), [(show(a), b) for a, b in L]) for t, L, n in origins], "" if not fills else "; filled entry by entry: %s" % [(f["text"], f["value"]) for f in fills],
+              "" if not changed else "; " + "; ".join(changed)))
     keys, patterns, problems, unknown = removed_keys(mh, H)
     for f in fills:
         # entries that are never copied are entries removed
@@ -2196,14 +2748,19 @@ def header_content(chk, repo, fr):
     wh = repo.func("esutil.sfile.SFile._write_header")
     want = ("mcall", mh.qualname, (("data", ("param", "data")), ("header", ("param", "header"))))
     got = fr.get("dict_arg")
+    pcore, phelpers, _ = peel_helpers(repo, got) if got is not None else (None, [], False)
+    pwhy = ""
     if got is None or got == want:
         okp = None if got is None else True
+    elif phelpers and pcore == want:
+        # the dict goes through helpers of the package on its way to pformat: every value must come out equal
+        okp, pwhy = tf.verdict(phelpers)
     elif (got[0] == "mcall" and got[1] == mh.qualname) or got[0] in ("param", "dict", "lit") or (got[0] == "call" and any(x[0] == "param" for x in subterms(got) if x)):
         okp = False         # _make_header called with other arguments, or the user's dict / a literal / a copy of an argument printed instead
     else:
         okp = None          # an attribute or a value this evaluation does not resolve
     chk.ob(R, "_write_header::dict-pretty-printed", okp, fr.get("where", wh.where()),
-           "the header text is pprint.pformat of the dict built by _make_header(data, header=header) (%s)" % (show(got) if got is not None else "header text not evaluated"))
+           "the header text is pprint.pformat of the dict built by _make_header(data, header=header) (%s)%s" % (show(got) if got is not None else "header text not evaluated", "" if not pwhy else ": " + pwhy))
     rh = repo.func("esutil.sfile.SFile.read_header")
     ht = fr.get("read_header_value")
     if ht is None:
@@ -2211,12 +2768,21 @@ def header_content(chk, repo, fr):
         rr = _return_terms(rev)
         ht = rr[0] if len(rr) == 1 else None
     okr = None
-    if ht is not None and ht[0] == "call" and ht[1] in ("eval", "ast.literal_eval") and len(ht[2]) == 1:
+    rwhy = ""
+    rcore, rhelpers, _ = peel_helpers(repo, ht) if ht is not None else (None, [], False)
+    rv = True
+    if rhelpers and rcore[0] == "call" and rcore[1] in ("eval", "ast.literal_eval"):
+        # what eval gives back goes through helpers of the package before it is returned: every value must come out equal
+        rv, rwhy = tf.verdict(rhelpers)
+        ht = rcore
+    if rv is not True:
+        okr = rv
+    elif ht is not None and ht[0] == "call" and ht[1] in ("eval", "ast.literal_eval") and len(ht[2]) == 1:
         j = ht[2][0]
         if j[0] == "meth" and j[2] == "join" and is_lit(j[1], str) and len(j[3]) == 1 and line_slice(j[3][0]) is not None:
             # lines glued with nothing (or with text) between them do not give back what pprint wrote
             okr = j[1][1] != "" and j[1][1].strip() == ""
-    chk.ob(R, "read_header::dict-evaluated", okr, rh.where(), "the dict lines are re-joined with white space and evaluated (%s)" % (show(ht) if ht is not None else None))
+    chk.ob(R, "read_header::dict-evaluated", okr, rh.where(), "the dict lines are re-joined with white space and evaluated (%s)%s" % (show(ht) if ht is not None else None, "" if not rwhy else ": " + rwhy))
     rd = repo.func("esutil.sfile.SFile.read")
     rdev = Ev(repo, rd)
     tups = [rdev.ev(v.elts[1], n) for n in _returns(rdev) if n.ast.value is not None for v, _ in _split_ifexp(rdev, n.ast.value, n)
@@ -2418,6 +2984,271 @@ def front_ends(chk, repo):
     tn = [(n, path_literals(rev, n)) for e, n, c in find_calls(rev, named("to_native"), follow=False)]
     asked = (rev.ev_src("keys.get('ensure_native', False)", rev.cfg.entry), True)
     chk.ob(R, "io.read_rec::byte-order-kept-unless-asked", len(tn) == 1 and asked in tn[0][1], rr.where(), "the byte order read from the file is changed only when ensure_native is requested")
+
+
+# ---------------------------------------------------------------------------
+# R01.7: typestate of the file handle.  SFile.write tells the first write to a file (header dict and END line written) from an
+# append (only the SIZE line updated) by state it keeps on the handle: attributes that the write path itself records on the first
+# write and compares with None.  open() is public and re-opens a handle on another file, so whatever an earlier file left in
+# those attributes must be gone when open() has created the record reader/writer: on every path through open() that creates
+# it, each of them is assigned (None, or what was read from the new file) after entry.  Decided by a forward data-flow analysis
+# over the CFG of open() whose states are joint valuations {attribute: none | set | stale | unknown} x {record object created},
+# methods called on self (close() ...) and module functions given self summarised by the same analysis.
+# ---------------------------------------------------------------------------
+
+def _self_attr(e, selfname):
+    return e.attr if isinstance(e, ast.Attribute) and isinstance(e.value, ast.Name) and e.value.id == selfname else None
+
+
+def _selfname(fi):
+    a = fi.node.args
+    pos = a.posonlyargs + a.args
+    return pos[0].arg if fi.cls and pos else None
+
+
+def write_path_state(repo, wr):
+    """(methods of the class reachable from wr through calls on self, attributes compared with None / used as a truth value in them,
+    attributes assigned in them)"""
+    todo, seen = [wr], {}
+    while todo:
+        f = todo.pop()
+        if f.qualname in seen:
+            continue
+        seen[f.qualname] = f
+        sn = _selfname(f)
+        for x in walk_no_nested(f.node):
+            if isinstance(x, ast.Call) and _self_attr(x.func, sn) is not None:
+                g = repo.funcs.get("%s.%s.%s" % (f.module.name, f.cls, x.func.attr))
+                if g is not None:
+                    todo.append(g)
+    tested, assigned = {}, set()
+    for f in seen.values():
+        sn = _selfname(f)
+
+        def truth_uses(t):
+            while isinstance(t, ast.UnaryOp) and isinstance(t.op, ast.Not):
+                t = t.operand
+            if isinstance(t, ast.BoolOp):
+                for v in t.values:
+                    truth_uses(v)
+            elif _self_attr(t, sn) is not None:
+                tested.setdefault(t.attr, f)
+        for x in walk_no_nested(f.node):
+            if isinstance(x, ast.Compare) and len(x.ops) == 1 and isinstance(x.ops[0], (ast.Is, ast.IsNot, ast.Eq, ast.NotEq)):
+                l, r = x.left, x.comparators[0]
+                if isinstance(l, ast.Constant) and l.value is None:
+                    l, r = r, l
+                if isinstance(r, ast.Constant) and r.value is None and _self_attr(l, sn) is not None:
+                    tested.setdefault(l.attr, f)
+            elif isinstance(x, (ast.If, ast.While, ast.IfExp, ast.Assert)):
+                truth_uses(x.test)
+            elif isinstance(x, (ast.Assign, ast.AugAssign, ast.AnnAssign)):
+                for t in (x.targets if isinstance(x, ast.Assign) else [x.target]):
+                    for y in rules._flat_targets(t):
+                        if _self_attr(y, sn) is not None:
+                            assigned.add(y.attr)
+    return seen, tested, assigned
+
+
+_READS_ONLY = ("hasattr", "getattr", "isinstance", "issubclass", "id", "type", "repr", "str", "len", "print", "callable", "bool", "hash", "dir")
+
+
+class HandleFlow:
+    def __init__(self, repo, tracked, creates):
+        self.repo = repo
+        self.tracked = list(tracked)
+        self.creates = creates          # predicate(module, call): does the call create the record reader/writer
+        self.memo = {}
+        self.busy = set()
+        self.unrolled = set()
+
+    def _set(self, t, attr, v):
+        if attr not in self.tracked:
+            return t
+        i = self.tracked.index(attr)
+        return t[:i] + (v,) + t[i + 1:]
+
+    def _assign(self, S, target, value, sn):
+        """states after `target = value`"""
+        if isinstance(target, (ast.Tuple, ast.List)):
+            vals = value.elts if isinstance(value, (ast.Tuple, ast.List)) and len(value.elts) == len(target.elts) \
+                and not any(isinstance(y, ast.Starred) for y in list(value.elts) + list(target.elts)) else [None] * len(target.elts)
+            for y, v in zip(target.elts, vals):
+                S = self._assign(S, y.value if isinstance(y, ast.Starred) else y, v, sn)
+            return S
+        a = _self_attr(target, sn)
+        if a is None:
+            return S
+        v = "none" if isinstance(value, ast.Constant) and value.value is None else "set"
+        return {self._set(t, a, v) for t in S}
+
+    def _call(self, S, fi, sn, c):
+        mod = fi.module
+        if self.creates(mod, c):
+            S = {t[:-1] + (True,) for t in S}
+        f = c.func
+        callee, csn = None, None
+        if _self_attr(f, sn) is not None and fi.cls:
+            callee = self.repo.funcs.get("%s.%s.%s" % (mod.name, fi.cls, f.attr))
+            csn = _selfname(callee) if callee is not None else None
+        elif isinstance(f, ast.Name) and f.id in mod.funcs and mod.funcs[f.id].cls is None:
+            # a function of the module that is given the handle
+            g = mod.funcs[f.id]
+            ps = [p for p in g.params if not p.startswith("*")]
+            for i, a in enumerate(c.args):
+                if isinstance(a, ast.Name) and a.id == sn and i < len(ps):
+                    callee, csn = g, ps[i]
+            for k in c.keywords:
+                if k.arg is not None and isinstance(k.value, ast.Name) and k.value.id == sn and k.arg in ps:
+                    callee, csn = g, k.arg
+        elif isinstance(f, ast.Name) and f.id in ("setattr", "delattr") and c.args and isinstance(c.args[0], ast.Name) and c.args[0].id == sn:
+            nm = c.args[1] if len(c.args) > 1 else None
+            if isinstance(nm, ast.Constant) and isinstance(nm.value, str):
+                v = "unknown" if f.id == "delattr" or len(c.args) < 3 else ("none" if isinstance(c.args[2], ast.Constant) and c.args[2].value is None else "set")
+                return {self._set(t, nm.value, v) for t in S}
+            if id(c) in self.unrolled:
+                return S        # accounted for at the head of the loop over constant names it sits in
+            # the name is computed: any of the attributes may have been assigned
+            return {tuple("unknown" for _ in self.tracked) + (t[-1],) for t in S}
+        if callee is not None and csn is not None:
+            out = set()
+            for t in S:
+                out |= self.method(callee, csn, t)
+            return out
+        if isinstance(f, ast.Name) and f.id in _READS_ONLY and f.id not in mod.funcs and f.id not in mod.imports:
+            return S
+        if isinstance(f, ast.Attribute) and f.attr == "update" and isinstance(f.value, ast.Attribute) and f.value.attr == "__dict__" and _self_attr(f.value, sn) is not None \
+                and not c.args and all(k.arg is not None for k in c.keywords):
+            for k in c.keywords:            # self.__dict__.update(a=None, b=0)
+                S = {self._set(t, k.arg, "none" if isinstance(k.value, ast.Constant) and k.value.value is None else "set") for t in S}
+            return S
+        if any(isinstance(a, ast.Name) and a.id == sn for a in c.args) or \
+                (isinstance(f, ast.Attribute) and f.attr in ("update", "clear") and isinstance(f.value, ast.Attribute) and f.value.attr == "__dict__"):
+            # the handle itself is handed to something this analysis does not follow
+            return {tuple("unknown" if v == "stale" else v for v in t[:-1]) + (t[-1],) for t in S}
+        return S
+
+    def transfer(self, fi, sn, n, S):
+        for c in rules.stmts_calls(n):
+            S = self._call(S, fi, sn, c)
+        a = n.ast
+        if n.kind == "stmt":
+            if isinstance(a, ast.Assign):
+                for t in a.targets:
+                    S = self._assign(S, t, a.value, sn)
+            elif isinstance(a, ast.AnnAssign) and a.value is not None:
+                S = self._assign(S, a.target, a.value, sn)
+            elif isinstance(a, ast.AugAssign):
+                S = self._assign(S, a.target, None, sn)
+            elif isinstance(a, ast.Delete):
+                for t in a.targets:
+                    if _self_attr(t, sn) is not None:
+                        S = {self._set(x, t.attr, "unknown") for x in S}
+        elif n.kind == "with":
+            for it in a.items:
+                if it.optional_vars is not None:
+                    S = self._assign(S, it.optional_vars, None, sn)
+        elif n.kind == "loop" and isinstance(a, ast.For):
+            S = self._assign(S, a.target, None, sn)
+            S = self._const_name_loop(fi, sn, a, S)
+        return S
+
+    def _const_name_loop(self, fi, sn, loop, S):
+        """`for name in ("_a", "_b"): setattr(self, name, <constant>)`: a loop over a non-empty constant tuple of names whose body is
+        straight-line runs once per name, so when it is left every one of them has been assigned; the effect is applied at the loop head"""
+        if not isinstance(loop.target, ast.Name) or loop.orelse:
+            return S
+        try:
+            names = const_eval(loop.iter, {}, fi.module)
+        except NotConst:
+            return S
+        if isinstance(names, (str, bytes, dict)) or not hasattr(names, "__iter__"):
+            return S
+        names = list(names)
+        if not names or not all(isinstance(x, str) for x in names):
+            return S
+        if any(isinstance(x, (ast.Break, ast.Continue, ast.Return, ast.Raise, ast.If, ast.Try, ast.While, ast.For, ast.With)) for b in loop.body for x in ast.walk(b)):
+            return S
+        for b in loop.body:
+            c = b.value if isinstance(b, ast.Expr) else None
+            if isinstance(c, ast.Call) and isinstance(c.func, ast.Name) and c.func.id == "setattr" and len(c.args) == 3 and not c.keywords \
+                    and isinstance(c.args[0], ast.Name) and c.args[0].id == sn and isinstance(c.args[1], ast.Name) and c.args[1].id == loop.target.id \
+                    and isinstance(c.args[2], ast.Constant):
+                self.unrolled.add(id(c))
+                for nm in names:
+                    S = {self._set(t, nm, "none" if c.args[2].value is None else "set") for t in S}
+        return S
+
+    def method(self, fi, sn, t):
+        """the states at the normal exit of fi entered in state t"""
+        key = (fi.qualname, sn, t)
+        if key in self.memo:
+            return self.memo[key]
+        if key in self.busy or len(self.busy) > 12:
+            return {t}
+        self.busy.add(key)
+        try:
+            cfg = cfg_of(fi)
+            IN = {cfg.entry.id: {t}}
+            work = [cfg.entry]
+            while work:
+                n = work.pop()
+                S = IN.get(n.id, set())
+                out = self.transfer(fi, sn, n, set(S)) if n.ast is not None else set(S)
+                for m, labels in cfg.succ(n):
+                    if m.id == cfg.raise_exit.id:
+                        continue
+                    add = out | (S if "exc" in labels else set())
+                    cur = IN.setdefault(m.id, set())
+                    if not add <= cur:
+                        cur |= add
+                        work.append(m)
+            res = frozenset(IN.get(cfg.exit.id, set()))
+        finally:
+            self.busy.discard(key)
+        self.memo[key] = res
+        return res
+
+
+def handle_state(chk, repo):
+    R = "R01.7"
+    wr = repo.func("esutil.sfile.SFile.write")
+    op = repo.func("esutil.sfile.SFile.open")
+    chk.analysed_unit(op.qualname)
+    methods, tested, assigned = write_path_state(repo, wr)
+    tracked = sorted(a for a in tested if a in assigned)
+    if not tracked:
+        chk.ob(R, "SFile.open::first-write-state-reset", None, wr.where(), "the write path does not keep the first-write / append distinction in attributes of the handle that it "
+               "records and compares with None (compared: %s; recorded: %s)" % (sorted(tested), sorted(assigned)))
+        return
+
+    def creates(mod, c):
+        d = dotted_name(c.func)
+        if d is None:
+            return False
+        full = repo.resolve_name(mod, d)
+        return full.startswith("esutil.recfile") and full.rsplit(".", 1)[-1] in ("Recfile", "Open")
+    flow = HandleFlow(repo, tracked, creates)
+    entry = tuple("stale" for _ in tracked) + (False,)
+    outs = flow.method(op, _selfname(op), entry)
+    opened = [t for t in outs if t[-1]]
+    stale = sorted({a for t in opened for a, v in zip(tracked, t) if v == "stale"})
+    unknown = sorted({a for t in opened for a, v in zip(tracked, t) if v == "unknown"})
+    ok = None if not opened else (False if stale else (None if unknown else True))
+    users = ", ".join("self.%s (consulted in %s)" % (a, tested[a].name) for a in tracked)
+    if not opened:
+        why = ": no path through open() that creates the record reader/writer (recfile.Recfile) was found"
+    elif stale:
+        why = ": open() can return with a file opened while %s still hold%s what an earlier file left there -- no assignment to %s on some path from the entry of open() (close() and the other " \
+              "helpers called on self included) to its return; the first write to the newly opened file is then taken for an append (no header dict and END line written, the SIZE line " \
+              "counts the rows of both files) or refused as an incompatible dtype" % (", ".join("self." + a for a in stale), "s" if len(stale) == 1 else "", "it" if len(stale) == 1 else "them")
+    elif unknown:
+        why = ": assignments to %s could not be followed" % ", ".join("self." + a for a in unknown)
+    else:
+        why = ""
+    chk.ob(R, "SFile.open::first-write-state-reset", ok, op.where(),
+           "the state by which the write path tells the first write to a file from an append -- %s -- is assigned afresh (None, or what was read from the file being opened) on every "
+           "path through open() that creates the record reader/writer: open() is public and re-opens a used handle on another file%s" % (users, why))
 
 
 # ---------------------------------------------------------------------------
